@@ -1,3 +1,3 @@
 From Coq Require Import ExtrOcamlBasic.
-From OBB Require Import Model.Hopping.
-Extraction "model.ml" w_c07_c w_c07_py w_c07_spec.
+From OBB Require Import Model.Hopping Model.FreqRedef.
+Extraction "model.ml" w_c07_c w_c07_py w_c07_spec w_c07_freq.
